@@ -28,29 +28,18 @@
 (*               transcription can end in `crash` (a NULL ctx->head is      *)
 (*               dereferenced) or `hang` (loop that does not advance).      *)
 (*                                                                          *)
-(* Behaviours: Init picks a dtype and the empty format, every step appends  *)
-(* one grammar production.  A format may be extended while it is a          *)
-(* compatible prefix of the dtype; after that only Slack more productions   *)
-(* from a narrow alphabet are allowed.  Every state whose records are all   *)
-(* closed is a published case.                                              *)
+(* Behaviours: Init picks a dtype and one of its spine formats (formats     *)
+(* that describe it, or the empty format); a step edits the format: replace *)
+(* / insert / delete a production, wrap productions in T{}, repeat a        *)
+(* record, or put a production behind the end.  Every state is a case.      *)
 EXTENDS Naturals, Sequences, FiniteSets, TLC, Json
 
 CONSTANTS DtNames,   \* dtypes explored
-          Extra,     \* productions allowed beyond the number of scalar leaves of the dtype
-          Slack,     \* productions allowed after the format stopped being a compatible prefix
-          Neutral,   \* how many layout-neutral productions (byte-order mark, blank, tab, name, T{) a format may hold
-          Wide,      \* TRUE: the full alphabet also for the first deviating production
+          Edits,     \* edits applied to a spine format (the first from the whole alphabet)
+          MaxTail,   \* productions that may be put behind the end of the format
+          Wide,      \* TRUE: the whole alphabet also for the later edits
+          Deep,      \* TRUE: a production appended by an edit may be followed by tacked-on ones
           Dump
-
-VARIABLES dt,     \* name of the declared dtype
-          fmt,    \* lexemes so far
-          depth,  \* open records
-          np,     \* productions used
-          nn,     \* neutral productions used
-          slk,    \* deviating productions still allowed
-          ref,    \* Ref(fmt with the open records closed)
-          impl    \* outcome of the transcription on fmt (only meaningful when depth = 0)
-vars == <<dt, fmt, depth, np, nn, slk, ref, impl>>
 
 Max(a, b) == IF a > b THEN a ELSE b
 RoundUp(x, a) == IF (x % a) = 0 THEN x ELSE x + (a - (x % a))
@@ -143,7 +132,6 @@ Canon(ls) ==
        IN all(1) \o Canon(Tail(ls))
 
 DtInfo(n) == LET t == DtOf(n) ls == Flatten(t, 0) IN [t |-> t, leaves |-> ls, canon |-> Canon(ls), size |-> t.size]
-DtTab == [n \in DtNames |-> DtInfo(n)]
 
 ---------------------------------------------------------------------------
 (* reference: layout of a format *)
@@ -278,7 +266,9 @@ Advance(c) ==
            i1 == fr.i + 1
            c1 == [c EXCEPT !.st[Len(c.st)].i = i1]
        IN IF i1 > Len(fr.fs) THEN Advance(Pop(c1))        \* field->type == NULL: back to the parent
-          ELSE IF fr.fs[i1].t.g = "S" THEN Push(c1, fr.fs[i1].t.fields, fr.po + fr.fs[i1].off)   \* one level only
+          ELSE IF fr.fs[i1].t.g = "S" THEN                \* one level only, unlike the loop of _Init
+                 Push(IF fr.fs[i1].t.fields[1].t.g = "S" THEN Ev(c1, "struct-in-first-member") ELSE c1,
+                      fr.fs[i1].t.fields, fr.po + fr.fs[i1].off)
           ELSE c1
 
 EncSize(c) == LET tc == TCof(IF c.cx THEN ZCode(c.et) ELSE c.et) IN IF c.epm \in {"@", "^"} THEN tc.n ELSE tc.s
@@ -401,74 +391,109 @@ ImplRes(i, t, isz) == IF i.res = "run" THEN (IF isz = t.size THEN "accept" ELSE 
                       ELSE IF i.res = "err" THEN "reject" ELSE i.res
 
 ---------------------------------------------------------------------------
-(* the behaviours: formats grown production by production *)
-Closed(f, d) == IF d = 0 THEN f ELSE IF d = 1 THEN f \o <<"}">> ELSE f \o <<"}", "}">>
-LastLex == IF fmt = <<>> THEN "" ELSE fmt[Len(fmt)]
+(* the behaviours: the spine formats of a dtype, edited *)
+\* a production is a sequence of lexemes; a format is the concatenation of its productions
+RECURSIVE Flat(_)
+Flat(ps) == IF ps = <<>> THEN <<>> ELSE Head(ps) \o Flat(Tail(ps))
+OPEN == <<"T", "{">>
+OPEN2 == <<"2", "T", "{">>
+CLOSE == <<"}">>
+P(c) == <<c>>
+X(n) == <<n, "x">>
+Z(c) == <<"Z", c>>
 
-Budget == Len(DtTab[dt].canon) + Extra
-OnTrack == slk = Slack                      \* still a compatible prefix
-CanGrow == np < Budget /\ (OnTrack \/ slk > 0)
-Full == OnTrack              \* the whole alphabet is tried while on track ...
-\* ... but a production that leaves the track is kept only if it is in Medium (unless Wide) ...
-Medium == {<<"b">>, <<"B">>, <<"i">>, <<"q">>, <<"d">>, <<"c">>, <<"Z", "d">>, <<"2", "i">>, <<"x">>, <<"s">>, <<"(", "2", ")", "i">>,
-           <<"T", "{">>, <<"=">>, <<">">>, <<"n">>, <<"\t">>, <<"0", "i">>, <<"(", " ", "3", ")", "i">>}
-\* ... and after that the productions come from the narrow alphabets below
+\* formats that describe the dtype (or nearly: same leaves, item size left to the exporter)
+Spines(n) ==
+  CASE n = "schar" -> {<<P("b")>>}        [] n = "uchar" -> {<<P("B")>>}      [] n = "char" -> {<<P("c")>>}
+    [] n = "short" -> {<<P("h")>>}        [] n = "ushort" -> {<<P("H")>>}
+    [] n = "int" -> {<<P("i")>>}          [] n = "uint" -> {<<P("I")>>}
+    [] n = "long" -> {<<P("l")>>}         [] n = "ulong" -> {<<P("L")>>}
+    [] n = "float" -> {<<P("f")>>}        [] n = "double" -> {<<P("d")>>}     [] n = "ldouble" -> {<<P("g")>>}
+    [] n = "cfloat" -> {<<Z("f")>>}       [] n = "cdouble" -> {<<Z("d")>>}
+    [] n = "PK" -> {<<P("="), P("b"), P("i"), P("h")>>}
+    [] n = "ST" -> {<<P("b"), P("i"), P("h"), X("2")>>, <<OPEN, P("b"), X("3"), P("i"), P("h"), X("2"), CLOSE>>}
+    [] n = "IN" -> {<<P("b"), P("q"), P("b"), X("7")>>, <<OPEN, P("b"), X("7"), P("q"), P("b"), X("7"), CLOSE>>}
+    [] n = "NE" -> {<<P("b"), X("7"), OPEN, P("b"), X("7"), P("q"), P("b"), X("7"), CLOSE, P("b"), X("7")>>,
+                    <<P("b"), OPEN, P("b"), P("q"), P("b"), CLOSE, P("b"), X("7")>>}
+    [] n = "NS" -> {<<OPEN, P("b"), P("q"), P("b"), X("7"), CLOSE, P("i"), X("4")>>}
+    [] n = "DN" -> {<<P("b"), X("7"), OPEN, OPEN, P("b"), P("q"), P("b"), X("7"), CLOSE, P("i"), X("4"), CLOSE>>,
+                    <<P("b"), X("7"), P("b"), X("7"), P("q"), P("b"), X("7"), P("i"), X("4")>>}
+    [] n = "AR" -> {<<<<"(", "3", ")", "i">>, P("d")>>}
+    [] n = "A2" -> {<<P("b"), <<"(", "2", ",", "2", ")", "h">>>>}
+    [] n = "CS" -> {<<P("d"), P("d")>>, <<Z("d")>>}
+    [] n = "SA" -> {<<<<"4", "s">>, P("i")>>, <<<<"(", "4", ")", "c">>, P("i")>>}
+    [] n = "FC" -> {<<Z("f"), P("b"), X("3")>>}
+    [] n = "IC" -> {<<P("i"), P("b"), X("3")>>, <<P("i"), P("b")>>}
 
-Step_(add, f, ddepth, neutral, r) ==
-  LET on == OnTrack /\ PrefixOK(DtTab[dt], r)
-  IN /\ on \/ ~OnTrack \/ Wide \/ add \in Medium
-     /\ fmt' = f
-     /\ depth' = depth + ddepth
-     /\ np' = np + 1
-     /\ nn' = nn + (IF neutral THEN 1 ELSE 0)
-     /\ slk' = IF on THEN slk ELSE slk - 1
-     /\ ref' = r
-     /\ impl' = IF depth + ddepth = 0 THEN ImplRun(DtTab[dt].t, f) ELSE [res |-> "open", ev |-> {}]
-     /\ UNCHANGED dt
-Step(add, ddepth, neutral) == Step_(add, fmt \o add, ddepth, neutral, Ref(Closed(fmt \o add, depth + ddepth)))
+Marks == {"@", "=", "<", ">", "!", "^"}
+CodesFull == {<<c>> : c \in Codes1 \ {"s", "p"}} \cup {Z("f"), Z("d"), Z("g")}
+Counted == {<<"2", c>> : c \in {"b", "B", "c", "h", "i", "q", "d", "f"}} \cup {<<"3", "i">>, <<"3", "b">>, <<"2", "Z", "d">>}
+Zeros == {<<"0", c>> : c \in {"i", "q", "b", "d", "h", "x"}}
+Pads == {X("1"), P("x"), X("2"), X("3"), X("4"), X("7")}
+Strs == {P("s"), P("p"), <<"1", "s">>, <<"2", "s">>, <<"4", "s">>, <<"4", "p">>}
+Shapes == {<<"(", "3", ")", "i">>, <<"(", "2", ")", "i">>, <<"(", "2", ",", "2", ")", "h">>, <<"(", "2", ",", "2", ")", "i">>,
+           <<"(", "4", ")", "c">>, <<"(", "4", ")", "b">>, <<"(", "3", ")", "Z", "f">>, <<"(", " ", "3", ")", "i">>}
+Neutrals == {<<m>> : m \in Marks} \cup {P(" "), P("\t"), P(":a:")}
+Recs == {<<"T", "{", "b", "}">>, <<"T", "{", "i", "q", "}">>}
+AlphaFull == CodesFull \cup Counted \cup Zeros \cup Pads \cup Strs \cup Shapes \cup Neutrals \cup Recs
+AlphaMedium == {P("b"), P("B"), P("i"), P("q"), P("d"), P("c"), Z("d"), <<"2", "i">>, P("x"), P("s"), <<"(", "2", ")", "i">>,
+                P("="), P(">"), P("n"), P("\t"), <<"0", "i">>, P(":a:"), <<"T", "{", "b", "}">>}
+AlphaNarrow == {P("b"), P("i"), P("x"), <<"(", "2", ")", "i">>, <<"2", "q">>, P("="), <<"T", "{", "b", "}">>}
 
-CodesFull == {<<c>> : c \in Codes1 \ {"s", "p"}} \cup {<<"Z", "f">>, <<"Z", "d">>, <<"Z", "g">>}
-CodesNarrow == {<<"b">>, <<"i">>}
-CountsFor(code) == IF ~Full THEN {"2"} ELSE IF code \in {<<"i">>, <<"q">>, <<"b">>, <<"d">>, <<"h">>} THEN {"2", "3"} ELSE {"2"}
+VARIABLES dt,       \* name of the declared dtype
+          D,        \* its type tree, leaves and size (DtInfo(dt), kept in the state so that it is computed once)
+          prods,    \* the format: a sequence of productions
+          ned,      \* edits applied to the spine
+          lastpos,  \* position of the last edit (edits go left to right)
+          atend,    \* every edit so far appended at the end
+          ntail,    \* productions appended at the end (edits that did so included)
+          ref,      \* Ref(format)
+          impl      \* outcome of the transcription of the format check
+vars == <<dt, D, prods, ned, lastpos, atend, ntail, ref, impl>>
+fmt == Flat(prods)
 
-AddItem == /\ CanGrow
-           /\ \E code \in (IF Full THEN CodesFull ELSE CodesNarrow) : Step(code, 0, FALSE)
-AddCounted == /\ CanGrow
-              /\ \E code \in (IF Full THEN CodesFull ELSE {<<"q">>}) : \E n \in CountsFor(code) : Step(<<n>> \o code, 0, FALSE)
-AddPad == /\ CanGrow
-          /\ \E add \in (IF Full THEN {<<"x">>, <<"2", "x">>, <<"3", "x">>, <<"7", "x">>} ELSE {<<"x">>}) : Step(add, 0, FALSE)
-AddZero == /\ CanGrow /\ nn < Neutral /\ Full         \* a count of 0: no item, alignment only
-           /\ \E code \in {"i", "q", "b", "d", "h", "x"} : Step(<<"0", code>>, 0, TRUE)
-AddStr == /\ CanGrow
-          /\ \E add \in (IF Full THEN {<<"s">>, <<"p">>, <<"1", "s">>, <<"4", "s">>, <<"2", "s">>, <<"4", "p">>} ELSE {}) : Step(add, 0, FALSE)
-AddShape == /\ CanGrow
-            /\ \E add \in (IF Full THEN {<<"(", "3", ")", "i">>, <<"(", "2", ",", "2", ")", "h">>, <<"(", "2", ")", "i">>, <<"(", "4", ")", "c">>,
-                                         <<"(", "4", ")", "b">>, <<"(", "2", ",", "2", ")", "i">>, <<"(", "3", ")", "Z", "f">>, <<"(", " ", "3", ")", "i">>}
-                           ELSE {<<"(", "2", ")", "i">>}) : Step(add, 0, FALSE)
-AddMark == /\ CanGrow /\ nn < Neutral /\ depth = 0
-           /\ LastLex \notin {"@", "=", "<", ">", "!", "^"}
-           /\ \E m \in (IF Full THEN {"@", "=", "<", ">", "!", "^"} ELSE {}) : Step(<<m>>, 0, TRUE)
-AddBlank == /\ CanGrow /\ nn < Neutral /\ Full
-            /\ \E b \in {" ", "\t"} : Step(<<b>>, 0, TRUE)
-AddName == /\ CanGrow /\ nn < Neutral /\ Full
-           /\ LastLex \in Codes1 \cup {"}"}
-           /\ Step(<<":a:">>, 0, TRUE)
-OpenRec == /\ CanGrow /\ depth < 2
-           /\ \E add \in (IF Full THEN {<<"T", "{">>, <<"2", "T", "{">>} ELSE {<<"T", "{">>}) : Step(add, 1, FALSE)
-CloseRec == /\ depth > 0 /\ LastLex # "{"
-            /\ fmt' = fmt \o <<"}">> /\ depth' = depth - 1
-            /\ impl' = IF depth = 1 THEN ImplRun(DtTab[dt].t, fmt') ELSE impl
-            /\ UNCHANGED <<dt, np, nn, slk, ref>>
+Editable(i) == prods[i] \notin {OPEN, OPEN2, CLOSE}
+Alpha == IF ned = 0 THEN AlphaFull ELSE IF Wide THEN AlphaFull ELSE AlphaMedium
 
-Init == /\ dt \in DtNames /\ fmt = <<>> /\ depth = 0 /\ np = 0 /\ nn = 0 /\ slk = Slack
-        /\ ref = Ref(<<>>) /\ impl = ImplRun(DtTab[dt].t, <<>>)
-Next == AddItem \/ AddCounted \/ AddPad \/ AddZero \/ AddStr \/ AddShape \/ AddMark \/ AddBlank \/ AddName \/ OpenRec \/ CloseRec
+Set_(ps, e, lp, ae, nt, f) ==
+  /\ prods' = ps /\ ned' = ned + e /\ lastpos' = lp /\ atend' = ae /\ ntail' = nt
+  /\ ref' = Ref(f) /\ impl' = ImplRun(D.t, f)
+  /\ UNCHANGED <<dt, D>>
+Set(ps, e, lp, ae, nt) == Set_(ps, e, lp, ae, nt, Flat(ps))
+
+InsertAt(ps, i, a) == SubSeq(ps, 1, i - 1) \o <<a>> \o SubSeq(ps, i, Len(ps))
+Subst == /\ ned < Edits
+         /\ \E i \in (lastpos + 1)..Len(prods) : /\ Editable(i)
+              /\ \E a \in Alpha \ {prods[i]} : Set([prods EXCEPT ![i] = a], 1, i, FALSE, ntail)
+Insert == /\ ned < Edits
+          /\ \E i \in (lastpos + 1)..Len(prods) :
+               /\ \E a \in Alpha : Set(InsertAt(prods, i, a), 1, i, FALSE, ntail)
+InsertEnd == /\ ned < Edits /\ ntail < MaxTail /\ (Deep \/ ntail = 0)
+             /\ \E a \in Alpha : Set(Append(prods, a), 1, Len(prods) + 1, atend, IF Deep THEN ntail + 1 ELSE MaxTail)
+Delete == /\ ned < Edits
+          /\ \E i \in (lastpos + 1)..Len(prods) : /\ Editable(i)
+               /\ Set(SubSeq(prods, 1, i - 1) \o SubSeq(prods, i + 1, Len(prods)), 1, i - 1, FALSE, ntail)
+WrapAll == /\ ned < Edits /\ lastpos = 0 /\ prods # <<>>
+           /\ \E o \in {OPEN, OPEN2} : Set(<<o>> \o prods \o <<CLOSE>>, 1, Len(prods) + 2, FALSE, ntail)
+WrapOne == /\ ned < Edits
+           /\ \E i \in (lastpos + 1)..Len(prods) : /\ Editable(i) /\ prods[i] \notin Neutrals
+                /\ Set(SubSeq(prods, 1, i - 1) \o <<OPEN, prods[i], CLOSE>> \o SubSeq(prods, i + 1, Len(prods)), 1, i + 2, FALSE, ntail)
+Repeat2 == /\ ned < Edits
+           /\ \E i \in (lastpos + 1)..Len(prods) : /\ prods[i] = OPEN
+                /\ Set([prods EXCEPT ![i] = OPEN2], 1, i, FALSE, ntail)
+\* after the format has run past its end: a few more productions from the narrow alphabet
+Tack == /\ atend /\ ntail < MaxTail
+        /\ \E a \in AlphaNarrow : Set(Append(prods, a), 0, Len(prods) + 1, TRUE, ntail + 1)
+
+Init == /\ dt \in DtNames /\ D = DtInfo(dt) /\ prods \in Spines(dt) \cup {<<>>}
+        /\ ned = 0 /\ lastpos = 0 /\ atend = TRUE /\ ntail = 0
+        /\ ref = Ref(Flat(prods)) /\ impl = ImplRun(D.t, Flat(prods))
+Next == Subst \/ Insert \/ InsertEnd \/ Delete \/ WrapAll \/ WrapOne \/ Repeat2 \/ Tack
 Spec == Init /\ [][Next]_vars
 
 ---------------------------------------------------------------------------
 (* what TLC decides *)
-Case == depth = 0
-D == DtTab[dt]
+Case == TRUE
 ISz == IF ref.ok /\ ref.size > 0 THEN ref.size ELSE D.size     \* exporter's item size = size of its format (if it has one)
 HasDt == ref.ok /\ ref.size > 0 /\ ref.size < D.size             \* second exporter: same format, item size = sizeof(dtype)
 VCalc == Verdict(D, ref, ISz)
@@ -478,7 +503,7 @@ IDt == ImplRes(impl, D.t, D.size)
 
 \* deviations of the code as it is that the model exhibits: every one passes a marked code point or a marked kind of format
 KnownRefFlags == {"nN", "tab", "struct-pad", "zero-count", "shape-blank"}
-KnownEvents == {"null-head"}
+KnownEvents == {"null-head", "struct-in-first-member"}
 Agree(v, i) == \/ v = "unspecified" /\ i \in {"accept", "reject"}
                \/ v = "compatible" /\ i = "accept"
                \/ v = "incompatible" /\ i = "reject"
@@ -503,9 +528,9 @@ Publish ==
   (Dump /\ Case) =>
     PrintT("@@" \o ToJson([dt |-> dt, f |-> fmt, ok |-> ref.ok, big |-> ref.big, size |-> ref.size, fl |-> ref.flags,
                             cn |-> Tup(ref.canon), isz |-> ISz, v |-> VCalc, ir |-> ICalc, ie |-> impl.ev,
-                            vd |-> IF HasDt THEN VDt ELSE "", ird |-> IF HasDt THEN IDt ELSE "", on |-> OnTrack]))
+                            vd |-> IF HasDt THEN VDt ELSE "", ird |-> IF HasDt THEN IDt ELSE "", ned |-> ned, nt |-> ntail]))
 PublishDt ==
-  (Dump /\ fmt = <<>>) =>
+  (Dump /\ prods = <<>> /\ ned = 0 /\ ntail = 0) =>
     PrintT("@@" \o ToJson([dtype |-> dt, size |-> D.size, leaves |-> [k \in 1..Len(D.leaves) |->
                              <<D.leaves[k].g, D.leaves[k].sz, D.leaves[k].off, D.leaves[k].shp>>]]))
 =============================================================================
